@@ -21,7 +21,11 @@ for m in pkgutil.iter_modules(translate.__path__):
             print(f"[setup] translate.{m.name} failed: {type(e).__name__}: {e}")
             rc = 1
 # 2. full build
-ok, out = coq_make([], timeout=3000)
+import json
+man = json.loads((common.VERIF / "MANIFEST.json").read_text())
+targets = [f"theories/Props/{c['property_id']}.vo" for c in man["checks"]
+           if (COQ / "theories" / "Props" / f"{c['property_id']}.v").exists()]
+ok, out = coq_make(targets, timeout=3000)
 print(out[-3000:])
 if not ok:
     rc = 1
